@@ -8,7 +8,7 @@ UW = [u for u in ps.UW if not u.startswith(("ubuf_block_common_clean", "ubuf_blo
 CLAIM = {
     "text": "Bounded model checking of the real upipe_chunk_stream.c and upipe_aggregate.c (with upipe_helper_uref_stream.h append / "
             "extract / consume and the output helpers) over the real block manager: a stream of 5-6 SYMBOLIC octets is fed to two "
-            "instances under two different cuttings into buffers (every listed cutting incl. empty and one-octet buffers, against the "
+            "instances under two different cuttings into buffers (every listed cutting incl. empty, one-octet and two-segment buffers, against the "
             "uncut stream) for every listed (MTU, alignment), then both are released. Asserted: outputs are, in order and without "
             "overlap, octets of the input; chunk_stream outputs every accepted octet exactly once but for a tail shorter than the "
             "alignment, every unit is a multiple of the alignment, <= MTU, full-size except the last, never empty, and the unit sequence "
@@ -16,13 +16,13 @@ CLAIM = {
             "release terminate (unwinding assertions on their loops, native replay under a 10 s alarm).",
     "note": "Trusted: as C04. Bounds: 5-6 octets, <= 4 buffers per cutting, the listed MTU/alignment pairs (the sizes decide the heap "
             "shape, so they are enumerated; octets are symbolic). Not covered: ts_sync / ts_check / ts_align (lib/upipe-ts needs the "
-            "absent bitstream headers; see C15/C16 not_applicable), segmented input buffers, longer streams.",
+            "absent bitstream headers; see C15/C16 not_applicable), longer streams. Cut entries >= 100 are two-segment buffers.",
     "technique": "CBMC bounded model checking of real C pipes: two instances under two cuttings of one symbolic stream, conservation / "
                  "cut-independence oracles, unwinding assertions for termination",
 }
 
-CUTS6 = [[3, 3], [5, 1], [1, 5], [2, 2, 2], [1, 0, 5], [4, 2], [0, 6], [1, 1, 4], [2, 3, 1], [1, 1, 1, 3]]
-CUTS5 = [[2, 3], [4, 1], [1, 4], [1, 0, 4], [2, 2, 1], [0, 5], [1, 1, 1, 2]]
+CUTS6 = [[3, 3], [1, 203], [5, 1], [1, 5], [2, 2, 2], [2, 101, 2], [1, 0, 5], [4, 2], [0, 6], [1, 1, 4], [2, 3, 1], [1, 1, 1, 3], [102, 201]]
+CUTS5 = [[2, 3], [1, 202], [4, 1], [1, 4], [1, 0, 4], [2, 2, 1], [0, 5], [1, 1, 1, 2]]
 
 
 def build(tier):
@@ -49,12 +49,12 @@ def build(tier):
                 continue
             qs.append(Query(name="agg_mtu%d_cut%s" % (mtu, "-".join(map(str, c))), harness="C14_rechunk.c",
                             defines=["PIPE=2", "MTU=%d" % mtu, "NB=6", "CUT_A=" + ",".join(map(str, c)), "CUT_B=6", "VERIF_POOL_NO_MGR_REF"],
-                            shims=ps.SHIMS, unwind=10, unwindset=UW, fp_restrict=True, timeout=280, leak=True, witness=(mtu >= max(c) and max(c) > 0),
+                            shims=ps.SHIMS, unwind=10, unwindset=UW, fp_restrict=True, timeout=280, leak=True, witness=(mtu >= max(x if x < 100 else x // 100 + x % 100 for x in c) and max(c) > 0),
                             replay_witness=False,
                             sample={"pipe": "aggregate", "mtu": mtu, "cutting": c, "stream": "6 symbolic octets"} if i == 0 else None))
     meta = {"bounds": {"stream_octets": [5, 6], "configs_mtu_align": cfgs, "cuttings": CUTS6 + CUTS5, "buffers_per_cutting": "<= 4"},
             "exhaustive": False,
             "rule": "one query per (pipe, configuration, stream length, cutting); sizes are enumerated (they decide the heap shape), octets symbolic",
             "assumptions": ps.COMMON_ASSUME[1:] + ["aggregate drops empty and oversized input units (documented by its warning); they are not 'accepted' octets"],
-            "outside": ["ts_sync / ts_check / ts_align", "segmented input buffers", "streams longer than 6 octets", "mid-stream reconfiguration"]}
+            "outside": ["ts_sync / ts_check / ts_align", "streams longer than 6 octets", "mid-stream reconfiguration"]}
     return qs, meta
